@@ -377,19 +377,88 @@ func (g *Gen) rangeNext(x *ssa.Next, st *State) *State {
 	return g.update(st, seenKey, fmt.Sprintf("(ite %s (store %s %s true) %s)", ok, seen, k, seen))
 }
 
+// Channel model (G-CHAN): per channel reference c and element type, the
+// sequence of values received so far from c (recvSeq[c][0..recvN[c])) and the
+// sequence of values sent into c (sendSeq[c][0..sendN[c])), as seen by the
+// goroutine under verification. A `select` may take ANY of its cases (and its
+// default, if it has one): every scheduler choice is covered.
+func (g *Gen) chanComps(elem types.Type) (recvN, recvSeq, sendN, sendSeq string) {
+	k := typeKey(elem)
+	es := g.u.SortOf(elem)
+	recvN, recvSeq, sendN, sendSeq = "G|$chan.recvN|"+k, "G|$chan.recvSeq|"+k, "G|$chan.sendN|"+k, "G|$chan.sendSeq|"+k
+	g.u.compSort[recvN] = "(Array Int Int)"
+	g.u.compSort[sendN] = "(Array Int Int)"
+	g.u.compSort[recvSeq] = "(Array Int (Array Int " + es + "))"
+	g.u.compSort[sendSeq] = "(Array Int (Array Int " + es + "))"
+	return
+}
+
+func chanElem(t types.Type) types.Type {
+	return types.Unalias(t).Underlying().(*types.Chan).Elem()
+}
+
 func (g *Gen) selectInstr(x *ssa.Select, st *State) *State {
-	g.fail("NEEDS-MODEL select at %s", g.pos(x))
-	return st
+	n := len(x.States)
+	idx := g.fresh("sel.idx", "Int")
+	lo := "0"
+	if !x.Blocking {
+		lo = "(- 1)"
+	}
+	g.assert(fmt.Sprintf("(and (<= %s %s) (< %s %d))", lo, idx, idx, n))
+	okc := g.fresh("sel.ok", "Bool")
+	res := []Term{idx, okc}
+	out := st
+	for i, s := range x.States {
+		et := chanElem(s.Chan.Type())
+		rN, rS, sN, sS := g.chanComps(et)
+		c := g.val(s.Chan)
+		chosen := fmt.Sprintf("(= %s %d)", idx, i)
+		if s.Dir == types.RecvOnly {
+			cnt := fmt.Sprintf("(select %s %s)", g.read(out, rN), c)
+			v := g.fresh("sel.recv", g.u.SortOf(et))
+			g.assert(fmt.Sprintf("(= %s (ite %s (select (select %s %s) %s) %s))", v, chosen, g.read(out, rS), c, cnt, g.u.ZeroValue(et)))
+			g.assert(g.u.rangeFact(v, et, g.top(out)))
+			res = append(res, v)
+			cur := g.read(out, rN)
+			out = g.update(out, rN, fmt.Sprintf("(ite %s (store %s %s (+ %s 1)) %s)", chosen, cur, c, cnt, cur))
+		} else {
+			cnt := fmt.Sprintf("(select %s %s)", g.read(out, sN), c)
+			curS, curN := g.read(out, sS), g.read(out, sN)
+			out = g.update(out, sS, fmt.Sprintf("(ite %s (store %s %s (store (select %s %s) %s %s)) %s)", chosen, curS, c, curS, c, cnt, g.val(s.Send), curS))
+			out = g.update(out, sN, fmt.Sprintf("(ite %s (store %s %s (+ %s 1)) %s)", chosen, curN, c, cnt, curN))
+		}
+	}
+	g.tuples[x] = res
+	g.abstractedOnce("select: every case (and default) is considered enabled; channels are FIFO and deliver each value once (G-CHAN)")
+	return out
 }
 
 func (g *Gen) send(x *ssa.Send, st *State) *State {
-	g.fail("NEEDS-MODEL channel send at %s", g.pos(x))
-	return st
+	et := chanElem(x.Chan.Type())
+	_, _, sN, sS := g.chanComps(et)
+	c := g.val(x.Chan)
+	cnt := fmt.Sprintf("(select %s %s)", g.read(st, sN), c)
+	curS, curN := g.read(st, sS), g.read(st, sN)
+	st = g.update(st, sS, fmt.Sprintf("(store %s %s (store (select %s %s) %s %s))", curS, c, curS, c, cnt, g.val(x.X)))
+	return g.update(st, sN, fmt.Sprintf("(store %s %s (+ %s 1))", curN, c, cnt))
 }
 
 func (g *Gen) recv(x *ssa.UnOp, st *State) *State {
-	g.fail("NEEDS-MODEL channel receive at %s", g.pos(x))
-	return st
+	et := chanElem(x.X.Type())
+	rN, rS, _, _ := g.chanComps(et)
+	c := g.val(x.X)
+	cnt := fmt.Sprintf("(select %s %s)", g.read(st, rN), c)
+	v := fmt.Sprintf("(select (select %s %s) %s)", g.read(st, rS), c, cnt)
+	if x.CommaOk {
+		r := g.fresh(g.valName(x)+"!v", g.u.SortOf(et))
+		g.assert(fmt.Sprintf("(= %s %s)", r, v))
+		okc := g.fresh(g.valName(x)+"!ok", "Bool")
+		g.tuples[x] = []Term{r, okc}
+	} else {
+		g.define(x, v)
+	}
+	cur := g.read(st, rN)
+	return g.update(st, rN, fmt.Sprintf("(store %s %s (+ %s 1))", cur, c, cnt))
 }
 
 // constSliceLen: statically known length of a slice value (slice expressions
